@@ -39,6 +39,15 @@ CLAIMS = {
         "Circuit._error is a scan obligation (writer set, guarded store in run_forever) plus solver lemmas (not ready stays not ready).",
    note="Trusted: pyvc encoding, z3, asyncio.Task.cancel/done, handler/coroutine interface contracts; traceback introspection "
         "abstracted to one boolean; A-cancel. Unclaimed in this revision: what run_forever/run/shutdown re-raise (coroutine bodies)."),
+ 'C10': dict(
+   text="Circuit._simulate (two while loops, an await, set operations, nested select_blk, try/raise) is executed from the real AST "
+        "with a quantified loop invariant: every combinational block is in eval_set, or fed by a queued block, or consistent; and the "
+        "burst counter equals eval_cnt <= 3*N.  Proved for all circuits and all schedules (the await is an environment step under "
+        "the delivery guarantee): at the idle point every combinational block is consistent; the instability error is raised only "
+        "when the counter has reached 3*N, before a further evaluation.  select_blk returns a member of its argument.",
+   note="Trusted: pyvc encoding, z3 (quantified, guarded style); assumptions wired(circuit) (C15), delivery guarantee G_set (C02), "
+        "idem(b) per block class, FuncBlock functions deterministic.  Bounded (labelled, not proof): 'few-path DAGs are never "
+        "reported unstable' and detection of rings / event feedback, by running ~4400 small circuits through the real simulator."),
  'C11': dict(
    text="SBlock.event, the _enable_event context manager (__enter__/__exit__), SBlock._event, Circuit.abort, Event.send and "
         "OutputFunc._event_put are executed from the real AST: a set guard refuses the event with EdzedCircuitError and changes "
